@@ -506,13 +506,17 @@ func DownloadFolderHandler(rwc io.ReadWriter, fullPath string, fileTransfer *Fil
 				return fmt.Errorf("error sending resource fork header: %w", err)
 			}
 
+			// A file may have an information fork (e.g. a comment) without a stored resource fork: the
+			// fork header above then announces 0 bytes and nothing follows, as in a single-file download.
 			rFile, err := hlFile.rsrcForkFile()
-			if err != nil {
+			if err != nil && !errors.Is(err, fs.ErrNotExist) {
 				return fmt.Errorf("error opening resource fork: %w", err)
 			}
 
-			if _, err = io.Copy(rwc, io.TeeReader(rFile, fileTransfer.bytesSentCounter)); err != nil {
-				return fmt.Errorf("error sending resource fork: %w", err)
+			if err == nil {
+				if _, err = io.Copy(rwc, io.TeeReader(rFile, fileTransfer.bytesSentCounter)); err != nil {
+					return fmt.Errorf("error sending resource fork: %w", err)
+				}
 			}
 		}
 
